@@ -68,7 +68,46 @@ def discover_sites() -> List[Dict[str, Any]]:
                     visit(ch, stack)
 
             visit(tree, [])
+            # a site inside a private helper is reached through the functions of the same file that call the helper
+            funcs: Dict[str, Any] = {}
+
+            def collect(node, stack):
+                for ch in ast.iter_child_nodes(node):
+                    if isinstance(ch, (ast.FunctionDef, ast.AsyncFunctionDef)):
+                        funcs[".".join(s.name for s in stack + [ch])] = ch
+                        collect(ch, stack + [ch])
+                    elif isinstance(ch, ast.ClassDef):
+                        collect(ch, stack + [ch])
+
+            collect(tree, [])
+            for key, site in sites.items():
+                if not key.startswith(rel + ":"):
+                    continue
+                qual_ = key.split(":", 1)[1]
+                short_ = qual_.rsplit(".", 1)[-1]
+                prefix = qual_.rsplit(".", 1)[0] + "." if "." in qual_ else ""
+                callers = []
+                for fname, node in sorted(funcs.items()):
+                    if fname == qual_ or not fname.startswith(prefix):
+                        continue
+                    for c in ast.walk(node):
+                        if isinstance(c, ast.Call) and ((isinstance(c.func, ast.Attribute) and c.func.attr == short_) or
+                                                        (isinstance(c.func, ast.Name) and c.func.id == short_)):
+                            callers.append(f"{rel}:{fname}")
+                            break
+                site["callers"] = callers
     return [sites[k] for k in sorted(sites)]
+
+
+def driver_site_of(site: Dict[str, Any]) -> Optional[str]:
+    """The site whose driver exercises this one: itself, or - for a helper without a driver of its own - a function of the
+    same file that calls it and has one."""
+    if site["site"] in DRIVERS:
+        return site["site"]
+    for c in site.get("callers", []):
+        if c in DRIVERS:
+            return c
+    return None
 
 
 # ---------------------------------------------------------------------------
@@ -220,6 +259,50 @@ def result(variant: str, inp: Any, aliases: List[List[str]], output: Any, expect
             "marker": (MARK in keys_of(output)) if expect_marker else None}
 
 
+def edit_in_place(x: Any, depth: int = 0) -> int:
+    """Change a typed object in place through attribute assignment and through its own containers."""
+    n = 0
+    if not modelops.is_instance(x) or depth > 2:
+        return 0
+    declared = {f.name for f in wiregen.fields(type(x))}
+    for k, cur in list(modelops.members(x).items()):
+        if k not in declared or cur is None:
+            continue
+        try:
+            if isinstance(cur, bool):
+                setattr(x, k, not cur)
+            elif isinstance(cur, (int, float)):
+                setattr(x, k, cur + 1)
+            elif isinstance(cur, str):
+                if typing.get_origin(next(f.annotation for f in wiregen.fields(type(x)) if f.name == k)) is typing.Literal:
+                    continue
+                setattr(x, k, cur + "-edited")
+            elif isinstance(cur, dict):
+                cur["vf-edited"] = 1
+            elif isinstance(cur, list):
+                for item in cur:
+                    n += edit_in_place(item, depth + 1)
+                continue
+            elif modelops.is_instance(cur):
+                n += edit_in_place(cur, depth + 1)
+                continue
+            else:
+                continue
+            n += 1
+        except Exception:  # noqa: BLE001
+            continue
+    return n
+
+
+def resend_row(variant: str, inp: Any, second: Any, fresh: Any, edits: int) -> Dict[str, Any]:
+    """The same typed object emitted a second time after it was edited in place (same handler / function) next to what a
+    fresh handler emits for the object as it is now."""
+    r = result("resend-after-in-place-edit:" + variant, inp, [], second, expect_marker=False)
+    r["expected"] = enc(json.loads(json.dumps(fresh, default=lambda o: f"<{type(o).__name__}>")))
+    r["edits"] = edits
+    return r
+
+
 def failed(variant: str, e: BaseException) -> Dict[str, Any]:
     import traceback
 
@@ -302,9 +385,17 @@ def with_homonyms(annotation: Any) -> Any:
 def drive_sync_function(fn: Callable, param: str) -> List[Dict[str, Any]]:
     hints = typing.get_type_hints(fn)
     out = []
+    resent = 0
     for v in arg_variants(with_homonyms(hints[param])):
         try:
             out.append(result(v["desc"], v["wire"], v["aliases"], plain(fn(v["value"])), v["mark"]))
+            if modelops.is_instance(v["value"]) and resent < 12:
+                edits = edit_in_place(v["value"])
+                if edits:
+                    resent += 1
+                    second = plain(fn(v["value"]))
+                    twin = type(v["value"]).model_validate(v["value"].model_dump(by_alias=True))
+                    out.append(resend_row(v["desc"], v["wire"], second, plain(fn(twin)), edits))
         except Exception as e:  # noqa: BLE001
             out.append(failed(v["desc"], e))
     return out
@@ -337,24 +428,38 @@ def d_request_user_input():
     from .sched import patched_uuid
 
     out = []
+    resent = 0
     for label, w, inst in instances(ElicitationParams):
         sent: List[Any] = []
 
-        async def main():
-            handler: Any = None
+        def make_handler():
+            box: Dict[str, Any] = {}
 
             async def send(request):
                 sent.append(request)
-                await handler.handle_elicitation_response(
+                await box["h"].handle_elicitation_response(
                     {"jsonrpc": "2.0", "id": request["id"], "result": {"data": {"answer": "x"}}})
 
-            handler = ElicitationHandler(send)
-            return await handler.request_user_input(inst)
+            box["h"] = ElicitationHandler(send)
+            return box["h"]
+
+        def strip(req):
+            return {k: v for k, v in plain(req).items() if k != "id"}
 
         try:
             with patched_uuid():
-                on_loop(main)
-            out.append(result(f"ElicitationParams[{label}]", w, populated_aliases(inst), plain(sent[0]), carries_mark(inst)))
+                handler = make_handler()
+                on_loop(lambda: handler.request_user_input(inst))
+                out.append(result(f"ElicitationParams[{label}]", w, populated_aliases(inst), plain(sent[0]), carries_mark(inst)))
+                if resent < 12:
+                    edits = edit_in_place(inst)
+                    if edits:
+                        resent += 1
+                        on_loop(lambda: handler.request_user_input(inst))            # same handler, same object, edited
+                        second = strip(sent[-1])
+                        fresh_handler = make_handler()
+                        on_loop(lambda: fresh_handler.request_user_input(inst))
+                        out.append(resend_row(f"ElicitationParams[{label}]", w, second, strip(sent[-1]), edits))
         except Exception as e:  # noqa: BLE001
             out.append(failed(label, e))
     return out
@@ -483,6 +588,12 @@ def d_handle_create_message_request():
             params = {"messages": [{"role": "user", "content": {"type": "text", "text": "q"}}], "maxTokens": 8}
             got = on_loop(lambda: handler.handle_create_message_request(params, "r-1"))
             out.append(result(f"content={v['desc']}", v["wire"], v["aliases"], plain(got), v["mark"]))
+            if modelops.is_instance(v["value"]) and len([o for o in out if "expected" in o]) < 8:
+                edits = edit_in_place(v["value"])
+                if edits:
+                    second = on_loop(lambda: handler.handle_create_message_request(params, "r-2"))
+                    fresh = on_loop(lambda: M.SamplingHandler(Provider()).handle_create_message_request(params, "r-2"))
+                    out.append(resend_row(f"content={v['desc']}", v["wire"], plain(second), plain(fresh), edits))
         except Exception as e:  # noqa: BLE001
             out.append(failed(v["desc"], e))
     return out
